@@ -1,7 +1,9 @@
 // E8 Preflight correspondence harness (C12): the real helper functions of streamable_headers.go /
 // streamableAccepts on generated inputs, whole ServeHTTP calls (streamable stateless / stateful, SSE)
 // through a recording ResponseWriter with every server handler and middleware counting what reached
-// it, and the real streamable client against the real stateless server.
+// it, and the real streamable client against the real stateless server - call by call (kind e2e) and as one session
+// over time with cached tools/list pages, TTLs, list_changed and re-registered tools (kind seq:
+// zz_verif_preflight_seq_test.go).
 //
 // Record format: see ENGINE_GUIDE.md. Every op starts with a token "@<kind>:<seed>:<index>" that the Lean
 // driver ignores; VERIF_REPLAY uses it to regenerate exactly that case.
